@@ -248,8 +248,13 @@ func (l *c17Local) Reset(what string) {
 	}
 }
 func (l *c17Local) Extra(m *c17Model) string {
-	if n, s := atomic.LoadUint64(&l.m.count), atomic.LoadUint64(&l.m.sum); n != m.mn["m"] || s != m.ms["m"] {
-		return fmt.Sprintf("mean holds count=%d sum=%d, the script added %d samples summing to %d", n, s, m.mn["m"], m.ms["m"])
+	// (through the object's own methods only: how it stores count and sum is its business)
+	want := 0.0
+	if m.mn["m"] > 0 {
+		want = float64(m.ms["m"]) / float64(m.mn["m"])
+	}
+	if got := l.m.get(); math.Abs(got-want) > 1e-9*math.Max(1, math.Abs(want)) {
+		return fmt.Sprintf("at quiescence mean.get() = %v, the script added %d samples summing to %d (mean %v)", got, m.mn["m"], m.ms["m"], want)
 	}
 	return ""
 }
@@ -933,8 +938,15 @@ func genC17Op(t *rapid.T, cfg c17GenCfg, mix []string, keys []int, counters, rat
 		if cfg.global {
 			// a time.Since() duration in nanoseconds: whole milliseconds + a sub-millisecond remainder
 			op.V = rapid.Uint64Range(0, 120_000).Draw(t, "ms")*1_000_000 + rapid.Uint64Range(0, 999_999).Draw(t, "ns")
+			if rapid.IntRange(0, 9).Draw(t, "long") == 0 {
+				// a long crawl in a few samples: the accumulated time passes 2^32 ms (49.7 days) after a handful of them
+				op.V = rapid.Uint64Range(1, 40).Draw(t, "days") * 86_400_000_000_000
+			}
 		} else {
 			op.V = rapid.Uint64Range(0, 600_000).Draw(t, "v")
+			if rapid.IntRange(0, 9).Draw(t, "long") == 0 {
+				op.V = uint64(1) << rapid.IntRange(28, 40).Draw(t, "log2v")
+			}
 		}
 	case "mget":
 		op.O = rapid.SampledFrom(means).Draw(t, "o")
@@ -1614,10 +1626,9 @@ func TestVerifKF_C17_MeanReadTorn(t *testing.T) {
 	stop.Store(true)
 	wg.Wait()
 	if b := bad.Load(); b != 0 {
-		n, s := atomic.LoadUint64(&m.count), atomic.LoadUint64(&m.sum)
 		veriflib.WriteFailure("C17", "C17/linearizable", map[string]any{"script": "1 writer: mean.add(10) repeatedly; 2 readers: mean.get()"}, nil,
 			fmt.Sprintf("%s: mean.get() returned %v while every sample is 10", c17MeanTornKey, math.Float64frombits(b)))
-		t.Fatalf("%s: mean.get() returned %v during a run in which every sample is 10 (final count=%d sum=%d): count and sum are read from different moments",
-			c17MeanTornKey, math.Float64frombits(b), n, s)
+		t.Fatalf("%s: mean.get() returned %v during a run in which every sample is 10: count and sum are read from different moments",
+			c17MeanTornKey, math.Float64frombits(b))
 	}
 }
